@@ -326,9 +326,22 @@ func (e *env) run(st Step) (res Result) {
 		}
 		// exact control over the backing array: len(b) bytes, st.N spare bytes of capacity
 		tail, _ := hex.DecodeString(st.Tail)
-		back := make([]byte, len(b), len(b)+len(tail)+st.N)
+		extra := 0
+		if os.Getenv("VFRUN_DIRTY") != "" {
+			extra = 96 // a recycled buffer: spare capacity that still holds what was there before
+		}
+		back := make([]byte, len(b), len(b)+len(tail)+st.N+extra)
 		copy(back, b)
 		copy(back[len(b):cap(back)], tail)
+		if extra > 0 {
+			sp := back[len(b)+len(tail) : cap(back)]
+			for i := range sp {
+				sp[i] = byte(0xA5 ^ (i * 7))
+				if sp[i] == 0 {
+					sp[i] = 0x3C
+				}
+			}
+		}
 		buf := bytes.NewBuffer(back)
 		if st.Consume > 0 {
 			buf.Next(st.Consume)
